@@ -199,7 +199,11 @@ def generate(ctx, iface, fileclass, methods, valuations, error_status=0):
                 A.append("        r.%s = new%s();" % (fn, ft))
         A.append("        return r; }")
     A.append("""    static byte[] patf(int n, int k, int p, int v, int out, int elem, int isf) { byte[] b = pat(n, k, p, v, out);
-        if (isf != 0 && elem != 0) for (int e = 0; e + elem <= n; e += elem) b[e + elem - 1] &= 0x3F; return b; }
+        if (isf != 0 && elem != 0) for (int e = 0; e + elem <= n; e += elem) {
+            if (v % 3 == 2 && (elem == 4 || elem == 8)) { b[e + elem - 1] = (byte)((b[e + elem - 1] & 0x80) | 0x7F);
+                b[e + elem - 2] = (byte)(elem == 4 ? ((b[e + elem - 2] & 0x3F) | 0x80) : ((b[e + elem - 2] & 0x07) | 0xF0)); b[e] |= 1; }
+            else b[e + elem - 1] &= 0x3F; }
+        return b; }
     static long le(byte[] b, int off, int n) { long r = 0; for (int i = 0; i < n; i++) r |= ((long)(b[off + i] & 0xff)) << (8 * i); return r; }
     static int inLen(int k, int p, int v) { int[] t = {0, 1, 3, 5}; return t[(k + p + v) % 4]; }
     static int outCap(int k, int p, int v) { int[] t = {4, 0, 1, 6}; return t[(k + 2 * p + v) % 4]; }
